@@ -2,7 +2,7 @@ import CentrifugeVerif.DriverLib
 import CentrifugeVerif.Model.Limits
 /-!
 Driver for C37 (channel limit / channel name length).  One op per line:
-  `reset limit= maxlen=` · `sub ch= len= kind=<r|m|p> async=<0|1> ok=<0|1>` · `complete i=` · `page ch= len=` ·
+  `reset limit= maxlen=` · `sub ch= len= kind=<r|m|p|s> async=<0|1> ok=<0|1>` · `complete i=` · `page ch= len=` ·
   `unsub ch=` · `ssub ch=`
 Output: `res=<…> n=<len(channels)> m=<len(mapSubscribing)> subs=<client-side subscriptions>`.
 -/
@@ -63,7 +63,8 @@ def stepLine (st : St) (line : String) : St × String :=
         | (s1, r) => ({ st with s := s1 }, fmt s1 (resStr r))
       else
       let isMap := kind == "m"
-      let (s1, r) := step st.s (if isMap then .subMapValidate ch len else .subReg ch len)
+      let (s1, r) := step st.s (if isMap then .subMapValidate ch len else if kind == "s" then .subPoll ch
+        else .subReg ch len)
       match r with
       | .ok g =>
         let p : Pending := { ch := ch, gen := g, isMap := isMap, ok := ok != 0 }
